@@ -30,7 +30,7 @@ def structure_corpus():
                     out.append(('bar', f'{eq}{num}{t}{f}'))
     out += [('bar', '=1-'), ('bar', '=-'), ('bar', '=3a'), ('bar', '=3b')]
     out += [('null', '.'), ('null', '*')]
-    out += [('clef', x) for x in sorted(set(G.CLEFS))]
+    out += [('clef', x) for x in sorted(set(G.CLEFS)) + ['*clefC5', '*clefP', '*clefX1'.replace('X1', 'F5')]]
     out += [('keysig', x) for x in G.KEYSIGS]
     out += [('meter', x) for x in G.METERS]
     out += [('metersym', x) for x in G.METERSYMS]
